@@ -461,18 +461,21 @@ func processReport(readerStart time.Time, report *llrp.ROAccessReport) {
 
 // onConnect is called when we open a new connection to a Reader.
 func (l *LLRPDevice) onConnect(svc interfaces.DeviceServiceSDK) {
-	l.deviceMu.RLock()
+	// Read and set the state in one step (as the disconnect path does),
+	// so connection events that overlap report the device Up only once.
+	l.deviceMu.Lock()
 	isEnabled := l.isUp
-	l.deviceMu.RUnlock()
+	l.isUp = true
+	l.deviceMu.Unlock()
 
 	if !isEnabled {
 		l.lc.Info("Device connection restored.", "device", l.name)
 		if err := svc.UpdateDeviceOperatingState(l.name, contract.Up); err != nil {
 			l.lc.Error("Failed to set device operating state to Enabled.",
 				"device", l.name, "error", err.Error())
-		} else {
+			// Try again on the next connection.
 			l.deviceMu.Lock()
-			l.isUp = true
+			l.isUp = false
 			l.deviceMu.Unlock()
 		}
 	}
